@@ -61,5 +61,13 @@ func init() {
 	propMeta["C18"] = l2("auth profile: auth-url (well-formed, malformed, dangling, svc://), oauth, both placements, auth-proxy ranges of 1, 2 and 5 ports or default, external-has-lua on/off; every request that the reference router gives to a rule of an ingress declaring authentication must be denied or pass lua.auth-intercept, and an intercept must reach the servers the declared auth-url resolves to; non-trivial = a protected request was judged after at least 2 reconciliations; distinct = distinct trace signature",
 		"requests that reach a backend other than the one their declaration names are routing matters (C03) and not judged here",
 		"the authentication target is not checked for requests that fell to the default host (they are resolved again inside the backend and may match another ingress' host rule)")
+	propMeta["C06"] = l2("order and order-history profiles; every sync point runs one canonical and four order-permuted fresh pipelines on the same stores; non-trivial = at least one permuted pipeline really iterated some map in another order; distinct = distinct trace signature",
+		"normal-form rules as for C01; sequence-numbered names (_auth_backendNNN, auth proxy ports, path ids, server slots) are replaced by what they stand for")
+	propMeta["C09"] = l2("xns profile: ingress and service annotations and spec.tls secretNames with ns/name and secret://ns/name references to both namespaces, the four cross-namespace keys drawn among allow, deny, invalid and absent, changed during the history, --allow-cross-namespace on in 1 of 8 runs (then nothing is asserted); non-trivial = a state with at least one denied cross-namespace reference was judged after an incremental update; distinct = distinct trace signature",
+		"a class is closed unless its key reads allow (case-insensitive), as documented; nothing is asserted when the command-line override is on",
+		"the long-running controller is only charged when its files equal those of a pipeline with every permission open (other differences are C01's subject)")
+	propMeta["C10"] = l2("gateway profile: Gateway API v1 objects only (no Ingress); non-trivial = at least one route was admitted and the state was judged after an incremental update; distinct = distinct trace signature",
+		"allowedRoutes and namespaces.from are never nil (the CRD defaults fill them); metadata.generation is bumped on every spec change as the API server does",
+		"listeners without TLS; HTTP listeners use the global bind port as documented")
 	propMeta["C12"] = l2("churn histories with disk/socket/reload/API faults, then faults stop and no further cluster change happens; non-trivial = at least one fault fired and the convergence check ran; distinct = distinct trace signature")
 }
